@@ -84,7 +84,7 @@ def _case(draw):
     if draw(st.booleans()):
         lo = draw(st.sampled_from([0, 300, 600]))
         fam["rules"] = [{"name": "r1", "conditionSets": [[{"name": "Weight", "minimum": lo, "maximum": 1000}]], "subs": [[a, b]]}]
-    cand = sorted({m["loc"]["Weight"] for m in masters} | {0, 1000, 200, 700, 850, 123.4, 500})
+    cand = sorted({m["loc"]["Weight"] for m in masters} | {0, 1000, 200, 700, 850, 123.4, 500, 250, 750})
     # ... and locations a hair's breadth away from a master (0.0004 of the axis): they are interpolated like any other location
     cand += [w for m in masters for w in (m["loc"]["Weight"] + 0.4, m["loc"]["Weight"] - 0.4) if 0 <= w <= 1000]
     hist = []
@@ -237,7 +237,7 @@ def run_case(case, ctx):
     specs = F.master_specs(fam)
     # per-master info variation
     for i, f in enumerate(fonts):
-        f.info.ascender = 800 + 10 * fam["masters"][i]["k"]
+        f.info.ascender = 800 + 25 * fam["masters"][i]["k"]
     before = [SN.font_snapshot(f) for f in fonts]
     with guard("Instantiator.from_designspace"):
         inst = Instantiator.from_designspace(ds, round_geometry=rounding)
@@ -271,7 +271,7 @@ def run_case(case, ctx):
         if subs:
             ds2, _ = F.build_designspace(norule_fam, module)
             for i, s in enumerate([s for s in ds2.sources if s.layerName is None]):
-                s.font.info.ascender = 800 + 10 * fam["masters"][i]["k"]
+                s.font.info.ascender = 800 + 25 * fam["masters"][i]["k"]
             plain = make_instance(Instantiator.from_designspace(ds2, round_geometry=rounding), loc)
             ref_state = instance_state(plain)
             for x, y in subs:
@@ -345,13 +345,19 @@ def run_case(case, ctx):
                 raise Violation("instance kerning differs from the blend of the masters' kerning", pair=list(key), location=loc, got=got, reference=ref,
                                 master_values=[key_value(sp["kerning"], groups, key) for sp in specs], round_geometry=rounding)
             ctx.count("kerning-keys-checked")
-        asc = f([800 + 10 * m["k"] for m in fam["masters"]])
+        asc = f([800 + 25 * m["k"] for m in fam["masters"]])
         if not rnd_ok(font.info.ascender, asc, True) and not close(font.info.ascender, asc):
             raise Violation("instance ascender differs from the blend of the masters", got=font.info.ascender, reference=asc)
+        if case["shape"] == "two" and loc["Weight"] in (250, 500, 750) and float(asc * 4).is_integer():
+            # two integer masters blended with a dyadic weight: the blend is exact in binary floating point, so a half is a half - rounded up
+            if font.info.ascender not in (asc, R.ot_round(asc)):
+                raise Violation("instance font info is not rounded half-up", field="ascender", got=font.info.ascender, exact_blend=asc)
+            if asc != int(asc):
+                ctx.label("info-value-exactly-on-a-half")
         # history independence
         ds3, _ = F.build_designspace(fam, module)
         for i, s in enumerate([s for s in ds3.sources if s.layerName is None]):
-            s.font.info.ascender = 800 + 10 * fam["masters"][i]["k"]
+            s.font.info.ascender = 800 + 25 * fam["masters"][i]["k"]
         fresh = make_instance(Instantiator.from_designspace(ds3, round_geometry=rounding), loc)
         if instance_state(fresh) != instance_state(make_instance(inst, loc)) or instance_state(fresh) != state:
             raise Violation("instance generated by a used Instantiator differs from a fresh Instantiator's", call_index=step, location=loc)
